@@ -2,6 +2,8 @@
 
 from __future__ import annotations
 
+import re
+
 import itertools
 from urllib.parse import uses_netloc
 
@@ -302,6 +304,20 @@ def recomposition(ctx, u, case):
     ctx.count("recomposed")
     scheme = u.scheme or None
     ra = u.raw_authority
+    # the four authority accessors are the split of raw_authority at its LAST '@', the first ':' of the userinfo and the ':'
+    # after the host / closing ']' - whatever the userinfo contains (brackets included)
+    if ra and not all(c in "@:" for c in ra):
+        user_, password_, host_, port_, notes_ = rfc.split_authority(ra)
+        hostport_ = ra.rpartition("@")[2]
+        well_bracketed = ("[" not in hostport_ and "]" not in hostport_) or re.fullmatch(r"\[[^\[\]]*\](:[^\[\]]*)?", hostport_) is not None
+        if well_bracketed and not ("text-before-bracket" in notes_ or "text-after-bracket" in notes_):
+            pc_, pv_ = port_class(port_)
+            got4 = (guarded(lambda: u.raw_user), guarded(lambda: u.raw_password), guarded(lambda: u.raw_host), guarded(lambda: u.explicit_port))
+            want4 = (user_ or None, password_, host_ if host_ is not None else "", pv_ if pc_ in ("none", "valid") else got4[3])
+            if not any(is_exc(x) for x in got4) and got4 != want4:
+                ctx.fail("authority_parts_mismatch", case, f"raw_authority={ra!r} splits into {want4!r}, accessors say {got4!r}", str=s)
+                return
+            ctx.count("authority_parts_checked")
     path = u.raw_path
     q = u.raw_query_string or None
     f = u.raw_fragment or None
@@ -418,7 +434,9 @@ def run(ctx):
     # delimiter permutations with empty parts / whitespace
     structured = []
     for sch in ("", "http:", "foo:", "HTTP:", "1a:", "a+b-c.d:", ":", "é:"):
-        for au in ("", "//", "//h", "//@h", "//:@h", "//u@", "//u:@h:", "//h:80", "//h:080", "//[::1]", "//[::1]:1", "//u:p@[v1.x]:0", "//x[::1]", "//[::1]x:1", "//h:+1", "//h:1_0", "//h: 1", "//h:65536"):
+        for au in ("", "//", "//h", "//@h", "//:@h", "//u@", "//u:@h:", "//h:80", "//h:080", "//[::1]", "//[::1]:1", "//u:p@[v1.x]:0", "//x[::1]", "//[::1]x:1", "//h:+1", "//h:1_0", "//h: 1", "//h:65536",
+                   # brackets that belong to the USERINFO (before the last '@'), host plain or bracketed
+                   "//[::1]@h:80", "//u[v1.x]:pw@h.example:81", "//x:[::]@h", "//[a:b]@h", "//[::1]@[::2]:1", "//[::1]:p@h", "//u@[::1]@h:9"):
             for pa in ("", "/", "/a", "a", "//a", "/./a/../b", "a:b", "%2e/x"):
                 for qf in ("", "?", "#", "?#", "?a#b", "#a?b", "??", "##"):
                     structured.append(sch + au + pa + qf)
